@@ -186,6 +186,19 @@ func filterGen(r *rand.Rand, n int, maxN int) []Case {
 			if r.Intn(2) == 0 {
 				k = fmt.Sprintf("key-%d", r.Intn(cnt*2))
 			}
+			if r.Intn(7) == 0 {
+				// long keys, around and far above typical buffer sizes (32, 64, 128, 256 …)
+				n := []int{31, 32, 33, 63, 64, 65, 66, 127, 128, 129, 200, 255, 256, 257, 1000, 5000}[r.Intn(16)]
+				b := make([]byte, n)
+				for j := range b {
+					b[j] = byte('a' + r.Intn(4))
+				}
+				// a shared long prefix: keys that differ only beyond a fixed-size buffer
+				if i > 0 && r.Intn(2) == 0 && len(keys[i-1]) >= n {
+					copy(b, keys[i-1][:n-1])
+				}
+				k = string(b)
+			}
 			if manyVersions && i > 0 && r.Intn(2) == 0 {
 				k = keys[0]
 			}
